@@ -185,6 +185,8 @@ func (in *Interp) newPath(sess *smt.Session, maxSteps int) *Path {
 		pcSet:      map[*smt.Term]bool{},
 		pcNeg:      map[*smt.Term]bool{},
 		pcNames:    map[string]bool{},
+		varIdx:     map[string]int{},
+		varMemo:    map[*smt.Term][]int{},
 		pcNegNames: map[string]bool{},
 		occ:        map[string]int{},
 		calls:      map[*ssa.Function]int{},
@@ -213,7 +215,7 @@ func (in *Interp) runPath(sess *smt.Session, cfg ExploreConfig, prefix []int64) 
 			if cfg.sampleSlot() {
 				func() {
 					defer func() { recover() }()
-					if sess.Check(nil) == smt.Sat {
+					if p.checkFull(nil) == smt.Sat {
 						p.res.EndModel = p.model()
 					}
 				}()
@@ -228,7 +230,7 @@ func (in *Interp) runPath(sess *smt.Session, cfg ExploreConfig, prefix []int64) 
 			rec := AssertRec{Label: "panic: " + r.msg, Verdict: "sat"}
 			func() {
 				defer func() { recover() }()
-				if sess.Check(nil) == smt.Sat {
+				if p.checkFull(nil) == smt.Sat {
 					rec.Model = p.model()
 				}
 			}()
